@@ -25,6 +25,7 @@ import (
 	"verifh/enum"
 	"verifh/evid"
 	"verifh/fakes"
+	"verifh/mc"
 	"verifh/ref"
 )
 
@@ -50,9 +51,17 @@ type tcase struct {
 	// re-subscription; 1: both land in the same evaluation pass.
 	Resub     int
 	ResubMode int
+	// Burst > 0: every link is stalled (the peers stop draining their streams:
+	// writes block, nothing is lost), the publisher publishes Burst messages
+	// from its own goroutine (it may block on back-pressure), then the links
+	// drain again.
+	Burst int
 }
 
 func (c tcase) String() string {
+	if c.Burst > 0 {
+		return fmt.Sprintf("n=%d edges=%s subs=%s pub=%d burst of %d messages while every link is stalled, then the links drain", c.N, edgeList(c.N, c.Edges), setStr(c.N, c.Subs), c.Pub, c.Burst)
+	}
 	if c.Resub > 0 {
 		mode := "release,settle,subscribe-again"
 		if c.ResubMode == 1 {
@@ -319,6 +328,7 @@ func runInBubble(c tcase, res *result) {
 	}
 	settle := func() { time.Sleep(500 * time.Millisecond); synctest.Wait() }
 	var ends []*ref.WireEnd
+	var wires []*ref.Wire
 	tapDir := func(from, to int) func(b []byte) {
 		df := &ref.Deframer{}
 		return func(b []byte) {
@@ -353,6 +363,7 @@ func runInBubble(c tcase, res *result) {
 				}
 			}
 			ends = append(ends, w.End(0), w.End(1))
+			wires = append(wires, w)
 			lid := uint64(100 + k)
 			add := func(self, other, side int) {
 				lnk := &fakes.MountedLink{UUID: lid, Local: keys[self].ID, Remote: keys[other].ID}
@@ -438,12 +449,37 @@ func runInBubble(c tcase, res *result) {
 		settle()
 	}
 	msgs := []string{"m1", "m2"}[:c.NPub]
+	if c.Burst > 0 {
+		msgs = nil
+		for i := 1; i <= c.Burst; i++ {
+			msgs = append(msgs, fmt.Sprintf("m%d", i))
+		}
+	}
 	publish := func(m string) {
 		if err := nodes[c.Pub].(*floodsub.FloodSub).Publish(ctx, chanID, keys[c.Pub].Priv, []byte(m)); err != nil {
 			evid.Fatal("Publish: %v", err)
 		}
 	}
-	if c.Re > 0 {
+	if c.Burst > 0 {
+		for _, w := range wires {
+			w.SetStall(0, true)
+			w.SetStall(1, true)
+		}
+		burstDone := make(chan struct{})
+		go func() {
+			defer close(burstDone)
+			for _, m := range msgs {
+				publish(m)
+			}
+		}()
+		settle() // the publisher has got as far as back-pressure lets it
+		for _, w := range wires {
+			w.SetStall(0, false)
+			w.SetStall(1, false)
+		}
+		settle()
+		<-burstDone
+	} else if c.Re > 0 {
 		if c.ReMode == 0 {
 			publish("m1")
 			wire(c.Re - 1)
@@ -616,6 +652,12 @@ func runShard(t *testing.T, cs []tcase, idx, of int, deadline time.Time) shardOu
 }
 
 func TestC28(t *testing.T) {
+	if os.Getenv("VERIF_SHARD_OUT") != "" {
+		// worker process of the controlled-scheduler part (mc.RunScenarios): go straight there
+		run := evid.Start("C28", "exploration")
+		exploreBursts(t, run, mc.NewAgg(run))
+		return
+	}
 	maxN := 4
 	if os.Getenv("VERIF_TIER") == "thorough" {
 		maxN = 5
@@ -838,8 +880,8 @@ func TestC28(t *testing.T) {
 		n int
 	}
 	smaller := func(a, b tcase) bool {
-		ka := []int{a.N, popcount(a.Edges), a.NPub, popcount(a.Subs), a.Order, int(a.Edges), int(a.Subs), a.Pub, a.Re, a.ReMode, a.Resub, a.ResubMode}
-		kb := []int{b.N, popcount(b.Edges), b.NPub, popcount(b.Subs), b.Order, int(b.Edges), int(b.Subs), b.Pub, b.Re, b.ReMode, b.Resub, b.ResubMode}
+		ka := []int{a.N, popcount(a.Edges), a.NPub, popcount(a.Subs), a.Order, int(a.Edges), int(a.Subs), a.Pub, a.Re, a.ReMode, a.Resub, a.ResubMode, a.Burst}
+		kb := []int{b.N, popcount(b.Edges), b.NPub, popcount(b.Subs), b.Order, int(b.Edges), int(b.Subs), b.Pub, b.Re, b.ReMode, b.Resub, b.ResubMode, b.Burst}
 		for i := range ka {
 			if ka[i] != kb[i] {
 				return ka[i] < kb[i]
@@ -870,6 +912,9 @@ func TestC28(t *testing.T) {
 			grp := fmt.Sprintf("n=%d", c.N)
 			if c.Resub > 0 {
 				grp = "re-subscribed " + grp
+			}
+			if c.Burst > 0 {
+				grp = "burst " + grp
 			}
 			if c.Re > 0 {
 				grp = "re-established " + grp
@@ -916,7 +961,23 @@ func TestC28(t *testing.T) {
 			acc.Sample(map[string]any{"case": c.String(), "model_reached": setStr(c.N, reach(c.N, c.Edges, c.Subs, c.Pub)), "observations": r.Log, "violations": len(r.Viols)})
 		}
 	}
+	// controlled-scheduler part: bursts over a stalled link
+	agg := mc.NewAgg(run)
+	exploreBursts(t, run, agg)
+	agg.Finish(true)
+	burst := map[string]any{}
+	for _, k := range []string{"executions", "states", "transitions", "scenarios", "samples", "exhaustive", "distinct_outcomes", "execution_tags", "max_depth", "deadlocks", "horizon_hits", "env_choices", "traces_validated_against_impl"} {
+		if v, ok := run.Cov[k]; ok {
+			burst[k] = v
+			delete(run.Cov, k)
+		}
+	}
+	burstExhaustive, _ := burst["exhaustive"].(bool)
 	acc.Finish()
+	if !burstExhaustive {
+		run.Cov["exhaustive"] = false
+	}
+	run.Cov["burst_over_stalled_link"] = burst
 	run.Cov["connected_graphs"] = len(graphs)
 	run.Cov["max_nodes"] = maxN
 	run.Cov["cases_total"] = len(cs) + len(reCases)
